@@ -20,6 +20,12 @@ yielded once more and k to element k of a set of special values (None, exception
 Kept runs (model: hd = TRUE): `stop keep` - the consumer keeps the iterator of a stopped run; `raise` with c = 1 - the
 caller keeps the exception object (its traceback keeps the generators upstream of the raising element suspended);
 `release` drops everything kept.  Later runs start while the stopped run is still suspended, and after it was released.
+In-place modification downstream (model: mu = TRUE): the consumer modifies every value it has received in place (values
+with a mutable part), in first runs and replays alike; the histories of that part replay one Cache object completely
+several times (memo[c].n; new containers around it, the same container / hoisted Source once more), then fresh Cache
+objects on the same files twice; every replay must yield the values as they were when they passed the cache in the
+filling run (a value that comes back modified is recorded as 10000 * marks + value: no behaviour of the spec).
+Cache_memo.cfg: the design that keeps the objects of a complete replay in the Cache object is refuted by TLC.
 """
 import pickle
 import random
@@ -84,7 +90,9 @@ def random_history(rnd):
         cmds.extend({"cmd": "next", "a": "", "rc": rc, "c": 0} for _ in range(k))
         if last:
             cmds.append(last)
-    return {"lens": lens, "vk": vk, "nc": nc, "shape": shape}, cmds
+    # the consumer modifies the values in place (flows without a repeated object: the source would yield it modified)
+    mu = rnd.random() < 0.4 and not any(k == cl.DUP for codes in vk for k in codes)
+    return {"lens": lens, "vk": vk, "nc": nc, "shape": shape, "mu": mu}, cmds
 
 
 def binding_demo(ctx):
@@ -154,7 +162,17 @@ def run(ctx):
                "run, or hold the complete flow - everything except a loadable proper prefix is accepted")
     ctx.assume("a container that alter_sequence built from a filled cache (a Source without the upstream) and that is "
                "run again after drop_cache() on that cache may only raise: it has nothing to load and nothing to recompute from")
+    ctx.assume("mu = TRUE: the consumer modifies every value in place after it has received it (one more mark on the dict / "
+               "list objects at the top of the value or inside its tuples, as an element updating the context does); the "
+               "values of those histories have a mutable part and are new objects (styles pair, nested, ctxonly, shared)")
     ctx.mc("Cache", "Cache_%s.cfg" % tag, coverage=True, must_cover=MUST)
+    # sensitivity guard: a design that keeps the objects of a complete replay in the Cache object and yields them
+    # again (as modified downstream since) must be refuted
+    memo = ctx.mc("Cache", "Cache_memo.cfg", workers=2, expect_violation="report")
+    if memo.exit == 0 or memo.violated != "LoadIsStored":
+        raise core.MachineryError("Cache_memo.cfg (Design = memo) does not violate LoadIsStored (exit %s, %s)"
+                                  % (memo.exit, memo.violated))
+    ctx.extra["model_of_memoising_design"] = "Design=memo with an in-place modifying consumer: TLC refutes LoadIsStored"
     if ctx.thorough:
         # the design of the pinned code (values written to the final name while yielding) in the same model
         pinned = ctx.mc("Cache", "Cache_pinned.cfg", expect_violation="report")
@@ -170,7 +188,9 @@ def run(ctx):
     ctx.sample({"exported_command_history": {"scenario": paths[len(paths) // 2][0],
                                              "commands": [[c["cmd"], c["a"] or c["c"] or c["rc"]]
                                                           for c in paths[len(paths) // 2][1]]}})
-    items = [(scen, cmds, cl.STYLES[i % len(cl.STYLES)], PROTOCOLS[(i // len(cl.STYLES)) % len(PROTOCOLS)])
+    # (mu = TRUE: values with a mutable part)
+    items = [(scen, cmds, (cl.MUT_STYLES[i % len(cl.MUT_STYLES)] if scen.get("mu") else cl.STYLES[i % len(cl.STYLES)]),
+              PROTOCOLS[(i // len(cl.STYLES)) % len(PROTOCOLS)])
              for i, (scen, cmds) in enumerate(paths)]
     # (a Split materialises its input, so the styles with ONE object mutated in place cannot pass through it:
     # the histories with a Split use the other styles)
@@ -201,6 +221,26 @@ def run(ctx):
     ctx.extra["histories_with_restart"] = sum(1 for _s, cmds in paths if any(c["cmd"] == "restart" for c in cmds))
     ctx.extra["histories_with_kept_run"] = sum(1 for _s, cmds in paths if any(
         (c["cmd"] == "stop" and c["a"] == "keep") or (c["cmd"] == "raise" and c["c"] == 1) for c in cmds))
+    mu_paths = [cmds for scen, cmds in paths if scen.get("mu")]
+    ctx.extra["histories_with_in_place_modifying_consumer"] = len(mu_paths)
+
+    def complete_runs(cmds):
+        """Largest number of consecutive complete runs through one set of Cache objects (the model starts a run only
+        when the one before has ended: without a stop / raise it was exhausted; the last one is continued to its end)."""
+        best = cur = 0
+        for c in cmds:
+            if c["cmd"] in ("start", "restart"):
+                cur += 1
+                best = max(best, cur)
+            elif c["cmd"] != "next":
+                cur = 0
+        return best
+    nrep = [complete_runs(cmds) for cmds in mu_paths]
+    ctx.extra["histories_with_two_or_more_complete_replays_of_one_cache_object"] = sum(1 for k in nrep if k >= 3)
+    if not any(k >= 3 for k in nrep) or not any(k >= 3 and any(c["cmd"] == "restart" for c in cmds)
+                                               for k, cmds in zip(nrep, mu_paths)):
+        raise core.MachineryError("vacuous export: no history with an in-place modifying consumer replays one Cache "
+                                  "object completely twice (new containers / the same container)")
     ctx.extra["histories_with_special_or_repeated_values"] = sum(
         1 for scen, _c in paths if any(k != cl.FRESH for codes in scen["vk"] for k in codes))
     # ---- code -> spec: random longer histories (validated in the same wave of TLC runs)
